@@ -13,7 +13,7 @@ from . import c03 as _c03, c18 as _c18
 LEVEL = 'other'
 TRUSTED = TRUSTED_COMMON
 ASSUMPTIONS = ['scalar division: orders 1..5, every scalar kind, tensors and operators, sizes / ranks / values symbolic (proof)',
-               'TT / TT division: bounded run-time contracts, y = 1 + z*z style denominators, orders 2..3 (quick) / 2..5 (thorough), C = 100']
+               'TT / TT division: bounded run-time contracts, y = 1 + z*z style denominators, orders 2..3 (quick) / 2..5 (thorough), C = 100; proved building blocks: entry points (division.entry), interface recursions / local product (orders 1..3), first local system of the real sweep (local_system.first_step, order 2)']
 EXPLANATION = 'proof for division by a scalar; bounded run-time contracts for the AMEn division. coverage.obligations/discharged count the deductive part only.'
 
 
